@@ -76,6 +76,11 @@ CHECKS = {
   text="Exploration: 320 (quick) / 20 000 (thorough) rounds of 32+48 goroutines, GOMAXPROCS alternating 2/16; evidence reports operations per kind, overlapping operations and the high-water mark of simultaneous library calls; a run without overlap or without the -race build is inconclusive. Interleavings are sampled, not enumerated.",
   note="Trusted: the Go race detector (sees only executed accesses).",
   ref="DESIGN.md section 6 C19"),
+ "C15": dict(
+  technique="runtime monitor over build-tag-guarded hooks: each unexported line recognizer and byte classifier is called directly and compared with a regexp / table transcription of the CommonMark 0.30 definition; each line is also parsed as a one-line document to tie the recognizer to its call site; NormalizeURI charset + idempotence and IsEmailAddress vs the spec regexp",
+  text="Exploration with exhaustive sub-spaces: all 256 byte values for every classifier; all lines up to 6-10 symbols over per-rule alphabets; all URI / e-mail strings up to 5-8 symbols; plus random longer lines and addresses with 62/63/64-character labels. Held on the calls observed, with one listed known finding (KF01).",
+  note="Trusted: my regexps for sections 4.1-4.5 and 5.2, Go's unicode tables for general categories (same tables as the library).",
+  ref="DESIGN.md section 6 C15"),
 }
 
 NOT_YET = {}
